@@ -264,9 +264,28 @@ func ruleB3(c *Ctx) {
 			if _, isK := b.Y.(*ssa.Const); isK {
 				return
 			}
-			// does the difference decide the result? (compared with 0, or returned)
+			// operands that are the small arm of Int.get are int32 values held in an int64: their
+			// difference cannot wrap (the repository's own comment says "safe: int32 operands")
+			fromGet := func(v ssa.Value) bool {
+				if ex, ok := v.(*ssa.Extract); ok && ex.Index == 0 {
+					if call, ok := ex.Tuple.(*ssa.Call); ok {
+						if cal := call.Call.StaticCallee(); cal != nil && cal.Name() == "get" && cal.Signature.Recv() != nil && isNamed(cal.Signature.Recv().Type(), "starlark", "Int") {
+							return true
+						}
+					}
+				}
+				return false
+			}
+			if fromGet(b.X) && fromGet(b.Y) {
+				return
+			}
+			// does the difference decide the result? (compared with 0, returned, or passed to a sign function)
 			for _, r := range *b.Referrers() {
 				switch x := r.(type) {
+				case *ssa.Call:
+					if cal := x.Call.StaticCallee(); cal != nil && strings.HasPrefix(strings.ToLower(cal.Name()), "signum") {
+						bad = "sign of a 64-bit difference (" + cal.Name() + ") at " + c.P.Pos(b.Pos())
+					}
 				case *ssa.BinOp:
 					if k, isK := constInt(x.Y); isK && k == 0 {
 						bad = "sign test of a difference at " + c.P.Pos(b.Pos())
